@@ -65,6 +65,37 @@ def run(ctx):
     for b in (wcd, cd, wpo):
         ctx.fn(b)
 
+    def coldef_group_ok(group):
+        """one column definition = the ColumnDefinition41 slots fed from the iterated Column, then exactly one packet end"""
+        if not group or group[-1].kind != "end_packet" or any(e.kind == "end_packet" for e in group[:-1]):
+            return False, "a column definition must be exactly one packet"
+        slots = group[:-1]
+        if len(slots) != len(SPEC.COLDEF41):
+            return False, "expected %d slots, found %d" % (len(SPEC.COLDEF41), len(slots))
+        for (kind, meaning), em in zip(SPEC.COLDEF41, slots):
+            if not slot_ok(em, kind):
+                return False, "slot `%s` must be %s, found %s" % (meaning, kind, em.short()[:60])
+        srcs = [
+            (slots[0].const_bytes() == b"\x03def", "catalog must be the constant 'def'"),
+            (slots[1].const_bytes() == b"\x00", "schema must be empty"),
+            (item_field(slots[2].value, "table"), "table slot must be fed from Column.table"),
+            (slots[3].const_bytes() == b"\x00", "org_table must be empty"),
+            (item_field(slots[4].value, "column"), "name slot must be fed from Column.column"),
+            (slots[5].const_bytes() == b"\x00", "org_name must be empty"),
+            (slots[6].const_bytes() == bytes([SPEC.FIXED_FIELDS_LEN]), "fixed-field length must be 0x0c"),
+            (item_field(slots[9].value, "coltype") and slots[9].width == 1, "type slot must be Column.coltype as one byte"),
+            (item_field(slots[10].value, "colflags") and slots[10].width == 2, "flags slot must be Column.colflags.bits() as u16"),
+        ]
+        for c, w in srcs:
+            if not c:
+                return False, w
+        fixed = 0
+        for em in slots[7:]:
+            fixed += em.width if em.kind == "fixed" else len(em.const_bytes() or b"")
+        if fixed != SPEC.FIXED_FIELDS_LEN:
+            return False, "fixed fields after the 0x0c marker are %d bytes" % fixed
+        return True, ""
+
     # ---- coldef layout ----------------------------------------------------------------------
     seqs = wire.ok_sequences(prog, wcd)
     n_iter = 0
@@ -174,6 +205,22 @@ def run(ctx):
                 fl = ems[2].value[2:4]
                 ok = all(T.is_const_int(x, 0) for x in fl)
                 why = "nested definition writer flags %s (need false,false)" % [term_str(x) for x in fl] if not ok else why
+        if not ok and len(ems) >= 3 and ems[0].kind == "lenenc_int" and ems[1].kind == "end_packet" and ems[-1].kind == "call" and ems[-1].callee == "writers::write_eof_packet":
+            # the same with the definition loop written out here (or a loop helper inlined): count packet, then one
+            # well-formed definition per iteration over the counted iterator, then the EOF unconditionally
+            groups, cur = [], []
+            for e in ems[2:-1]:
+                cur.append(e)
+                if e.kind == "end_packet":
+                    groups.append(cur)
+                    cur = []
+            res = [coldef_group_ok(g) for g in groups] + ([(False, "bytes outside a definition packet")] if cur else [])
+            lencall = T.find(ems[0].value, lambda x: T.is_call(x, r"ExactSizeIterator::len$"))
+            same_iter = lencall is not None and T.contains(lencall, lambda x: T.is_param(x, 1)) and all(
+                T.contains(g[2].value, lambda x: T.is_call(x, r"Iterator>?::next$") and T.contains(x, lambda y: T.peel(y) == T.peel(lencall[2][0]))) for g in groups)
+            narrowing = T.find(ems[0].value, lambda x: isinstance(x, tuple) and x[0] == "cast" and x[3] == "IntToInt" and (x[4], x[2]) not in T._WIDEN_OK)
+            ok = all(r[0] for r in res) and same_iter and narrowing is None
+            why = "inlined form: %s" % ([r[1] for r in res if not r[0]] or ("definitions do not iterate the counted iterator" if not same_iter else "count narrowed" if narrowing is not None else "ok"))
         ctx.ob("C09.count-packet", ok, "resultset header: " + why, fn=cd.path, construct="layout", where=cd.where(p.blocks[-1]),
                sample={"rule": "count-packet", "sequence": desc})
 
@@ -213,7 +260,7 @@ def run(ctx):
                sample={"rule": "prepare-ok", "sequence": desc})
     # callers: RowWriter start / reply / field list
     callers = [(b.path, bb) for b, bb, t in prog.callers_of(r"^writers::(write_column_definitions|column_definitions|write_prepare_ok)$") if "::tests::" not in b.path]
-    ctx.floor("C09.coldef-layout", "call sites of the metadata writers", len(callers), 6)
+    ctx.floor("C09.coldef-layout", "call sites of the metadata writers", len(callers), 5)
 
     # every outbound clause of this property presupposes a faithful framing layer (one transport write site that sends the
     # whole pending packet, in order, with a correct header): C04's framing rules are evaluated here as well
